@@ -122,6 +122,22 @@ func hostileBody(rng *rand.Rand, rev int, allowSpin bool) ([]byte, string, strin
 	return v, ct, "mutated valid payload"
 }
 
+// hostileJSONPBody: form bodies for a JSONP session whose d field is full of backslashes, escapes
+// that are not the two the protocol defines, percent-escapes and separators.
+func hostileJSONPBody(rng *rand.Rand) ([]byte, string, string) {
+	al := []string{"\\", "\\n", "\\\\n", "\\\\", "\\\"", "\\u2028", "\\x", "n", "4", "a", "\n", "%5C", "%5Cn", "%0A", "%", "+", "&d=", ";", "=", "C:\\dir\\name", "\\\\\\n"}
+	var sb strings.Builder
+	sb.WriteString([]string{"d=", "d=4", "d=6:4", "x=1&d=4", "d=4a&d="}[rng.IntN(5)])
+	for k := 1 + rng.IntN(12); k > 0; k-- {
+		sb.WriteString(al[rng.IntN(len(al))])
+	}
+	if rng.IntN(4) == 0 {
+		sb.WriteString("\\") // a trailing backslash
+	}
+	ct := []string{"application/x-www-form-urlencoded", "text/plain;charset=UTF-8", ""}[rng.IntN(3)]
+	return []byte(sb.String()), ct, "JSONP form body with backslashes and odd escapes"
+}
+
 func hostileQuery(rng *rand.Rand, sid, otherSid string, rev int) string {
 	pick := func(xs ...string) string { return xs[rng.IntN(len(xs))] }
 	var qs []string
@@ -165,7 +181,7 @@ func hostileAcceptEncoding(rng *rand.Rand) string {
 }
 
 func genC09(rng *rand.Rand, allowSpin bool) c09Case {
-	c := c09Case{Rev: 4, Victim: []string{"polling", "polling", "websocket", "webtransport"}[rng.IntN(4)]}
+	c := c09Case{Rev: 4, Victim: []string{"polling", "polling", "websocket", "webtransport", "jsonp"}[rng.IntN(5)]}
 	if c.Victim != "webtransport" && rng.IntN(3) == 0 {
 		c.Rev = 3
 	}
@@ -185,6 +201,9 @@ func genC09(rng *rand.Rand, allowSpin bool) c09Case {
 			st.Kind = "http"
 			st.Method = []string{"POST", "POST", "GET", "PUT", "DELETE", "OPTIONS", "HEAD", "PATCH"}[rng.IntN(8)]
 			body, ct, desc := hostileBody(rng, c.Rev, allowSpin && i == 0)
+			if c.Victim == "jsonp" && rng.IntN(2) == 0 {
+				body, ct, desc = hostileJSONPBody(rng)
+			}
 			st.BodyB64 = base64.StdEncoding.EncodeToString(body)
 			st.Header = map[string]string{}
 			if ct != "" {
@@ -258,7 +277,11 @@ func runC09(c c09Case, rng *rand.Rand, r *rep.Report) (key, msg string, stats ma
 				key, msg = "c09-handshake-failed", derr.Error()
 				return
 			}
-			victim, err := w.Connect(rig.ClientCfg{Rev: c.Rev, Transport: c.Victim, WSCompress: c.PMD})
+			vcfg := rig.ClientCfg{Rev: c.Rev, Transport: c.Victim, WSCompress: c.PMD}
+			if c.Victim == "jsonp" {
+				vcfg = rig.ClientCfg{Rev: c.Rev, Transport: "polling", JSONP: true, J: "7", B64: c.Rev == 3}
+			}
+			victim, err := w.Connect(vcfg)
 			rig.Wait()
 			if err != nil {
 				key, msg = "c09-handshake-failed", err.Error()
@@ -363,7 +386,11 @@ func runC09(c c09Case, rng *rand.Rand, r *rep.Report) (key, msg string, stats ma
 				}
 				time.Sleep(time.Millisecond)
 				rig.Wait()
-				if d := realNow() - t0; d > 1500*time.Millisecond && len(body) <= 65536 {
+				d := realNow() - t0
+				stats["max:step_cpu_ms:"+st.Kind] = max(stats["max:step_cpu_ms:"+st.Kind], int64(d/time.Millisecond))
+				// a bomb step is not judged by CPU time: the harness itself deflates 6 MB in this
+				// process to build it; its oracle is the size of what gets delivered
+				if st.Kind != "bomb" && d > 1500*time.Millisecond && len(body) <= 65536 {
 					key, msg = classifyC09(st, "c09-work-out-of-proportion"), fmt.Sprintf("step %d (%s, %d bytes) cost %v of CPU time", si, st.Desc, len(body), d)
 					return
 				}
@@ -439,6 +466,9 @@ func TestC09(t *testing.T) {
 	defer r.Flush()
 	r.Rule("grammar-based hostile client scripts (1-8 steps) against a server that also carries a canary session: HTTP requests with mutated methods, transport/EIO/sid/j/b64 query values (absent, repeated, garbage, huge, another session's id), content types, odd Origin/Accept-Encoding headers, bodies that are random, empty, bit-flipped/truncated/doubled valid payloads, inflated or malformed v3 length prefixes, invalid UTF-8/base64, delimiter floods, chunked; WebSocket/WebTransport frames of every packet type in every phase; upgrade candidates opened with another EIO value followed by heartbeats; hostile WebSocket handshakes; 13 hostile first messages and a stream-less session on a real WebTransport server (QUIC on loopback); oracle: the process survives (each case journalled before it runs), handler panics recovered by net/http are counted, no step of <=64 KiB costs more than 1.5 s of CPU time, the canary still round-trips, and 90 s after everything closed no server goroutine is left in the bubble; distinct = script signature")
 	r.Assume("not coverage-guided: breadth comes from the grammar and the seed; 'out of proportion' is operationalised as > 1.5 s of process CPU time for an input of at most 64 KiB")
+	// a script that has not finished after a minute of real time (normal: milliseconds) is examined
+	// for a goroutine spinning in library code (rep.Guard)
+	r.Guard(60 * time.Second)
 	n := r.N(1200, 150000)
 	for i := 0; i < n; i++ {
 		if !r.Only(i) {
@@ -456,6 +486,10 @@ func TestC09(t *testing.T) {
 		}
 		r.Case(fmt.Sprintf("%s/v%d/%s", c.Victim, c.Rev, strings.Join(sig, ",")), true)
 		for k, v := range stats {
+			if strings.HasPrefix(k, "max:") {
+				r.ObsMax(k[4:], v)
+				continue
+			}
 			r.Obs(k, v)
 		}
 		if i < 2 {
